@@ -47,13 +47,18 @@ struct Jar : cppcms::session_interface_cookie_adapter {
 };
 
 // ---------------------------------------------------------------- storage spy: which ids reach the storage
+// fault budget of the storage operation in progress (network storage): the client retries once, so an operation may meet at most one connection reset -
+// one that was injected while the connection was idle and is noticed now counts just as one injected while the operation runs
+int g_op_depth = 0, g_op_budget = 0;
+struct OpScope { OpScope(){ if(g_op_depth++ == 0) g_op_budget = simk::unconsumed_resets() ? 0 : 1; } ~OpScope(){ g_op_depth--; } };
+bool may_inject_reset(){ if(simk::unconsumed_resets()) return false; if(g_op_depth > 0){ if(g_op_budget <= 0) return false; g_op_budget = 0; } return true; }
 struct SpyStorage : cppcms::sessions::session_storage {
 	booster::shared_ptr<cppcms::sessions::session_storage> inner; std::vector<std::string> *bad; std::set<std::string> *live; uint64_t *calls;
 	static bool wellformed(const std::string &s){ if(s.size() != 32) return false; for(char c:s) if(!((c >= '0' && c <= '9') || (c >= 'a' && c <= 'f'))) return false; return true; }
 	void note(const std::string &sid){ simk::TsanIgnore ign; (*calls)++; if(!wellformed(sid)) bad->push_back(sid); }
-	void save(std::string const &sid,time_t timeout,std::string const &in) override { note(sid); inner->save(sid,timeout,in); simk::TsanIgnore ign; live->insert(sid); }
-	bool load(std::string const &sid,time_t &timeout,std::string &out) override { note(sid); return inner->load(sid,timeout,out); }
-	void remove(std::string const &sid) override { note(sid); inner->remove(sid); simk::TsanIgnore ign; live->erase(sid); }
+	void save(std::string const &sid,time_t timeout,std::string const &in) override { OpScope os; note(sid); inner->save(sid,timeout,in); simk::TsanIgnore ign; live->insert(sid); }
+	bool load(std::string const &sid,time_t &timeout,std::string &out) override { OpScope os; note(sid); return inner->load(sid,timeout,out); }
+	void remove(std::string const &sid) override { OpScope os; note(sid); inner->remove(sid); simk::TsanIgnore ign; live->erase(sid); }
 	bool is_blocking() override { return inner->is_blocking(); }
 };
 struct SpyFactory : cppcms::sessions::session_storage_factory {
@@ -105,6 +110,7 @@ struct E5 : Engine {
 		p["location"] = locs[r.below(3)]; p["expire"] = exps[r.below(3)]; p["storage"] = stors[r.below(5)]; p["enc"] = encs[r.below(13)]; p["key_seed"] = (int)r.below(1000);
 		p["timeout"] = 5 + (int)r.below(r.below(2) ? 40 : 4000); p["client_size_limit"] = (int)(r.below(2) ? 30 + r.below(200) : 2048); p["remove_unknown"] = (int)r.below(2);
 		p["p_file_short"] = r.below(4) == 0 ? (int)r.below(300) : 0; p["p_file_eintr"] = r.below(4) == 0 ? (int)r.below(100) : 0;
+		bool net_faults = p.gets("storage") == "network" && r.below(2);   // resets of the storage connection, at most one per request (sequential plans only)
 		int nb = 1 + r.below(3); p["browsers"] = nb; p["conc"] = (int)(nb > 1 && r.below(3) == 0); p["reuse"] = (int)(!p.geti("conc") && r.below(4) == 0);   // one long-lived session_interface re-targeted to each request with set_cookie_adapter_and_reload() p["strategy"] = (int)r.below(3); p["pct_depth"] = 1 + (int)r.below(3); p["pct_len"] = 50 + (int)r.below(2000);
 		J reqs = J::arr(); int n = 2 + r.below(thorough ? 30 : 12);
 		for(int i=0;i<n;i++){ J q = J::obj(); unsigned x = r.below(100);
@@ -126,7 +132,7 @@ struct E5 : Engine {
 					else if(y < 94){ o["op"] = "on_server"; o["v"] = (int)r.below(2); }
 					else { o["op"] = "reset"; }
 					ops.push(o); }
-				q["ops"] = ops; q["tick_inside"] = r.below(8) == 0 ? (int)(1 + r.below(5)) : 0; }
+				q["ops"] = ops; q["tick_inside"] = r.below(8) == 0 ? (int)(1 + r.below(5)) : 0; if(net_faults && r.below(3) == 0) q["net_reset"] = (int)(r.below(3) == 0 ? 0 : 1 + r.below(600)); }
 			reqs.push(q); }
 		p["reqs"] = reqs;
 		return p;
@@ -270,6 +276,13 @@ struct E5 : Engine {
 			f->spy.reset(new SpyStorage); f->spy->inner = f->inner->get(); f->spy->bad = &bad_sids; f->spy->live = &live_sids; f->spy->calls = &storage_calls; spyf = f.get();
 			pool.storage(std::unique_ptr<cppcms::sessions::session_storage_factory>(f.release())); }
 		pool.init();
+		// network storage, sequential plans: at most ONE reset of a storage connection per request - either while it is idle (before the request) or after a chosen
+		// number of bytes of the request's storage traffic. The client's single reconnect-and-retry has to mask it (every storage operation is idempotent), so the
+		// oracle stays as strict as without faults. (Two resets inside one operation legitimately make it throw: a first version that spaced resets by bytes only did that.)
+		struct NetResetter : simk::Actor { uint64_t at = 0; bool armed = false; int64_t *fired; bool enabled() override { return armed && simk::stats().bytes_rx + simk::stats().bytes_tx >= at; }
+			void step() override { armed = false; if(may_inject_reset() && simk::reset_accepted_stream(simk::fault_rng().next())) (*fired)++; } const char *name() override { return "net-resetter"; } } net_resetter;
+		net_resetter.fired = &cnt["storage_connection_resets"]; if(net_server) simk::add_actor(&net_resetter);
+		struct ActorGuard { ~ActorGuard(){ simk::clear_actors(); } } actor_guard;   // the actor lives on this stack frame
 		int nb = (int)std::max<int64_t>(1,std::min<int64_t>(plan.geti("browsers",1),4));
 		std::vector<Jar> jars(nb); std::vector<MSession> ms(nb); std::set<std::string> all_sids; std::vector<std::string> dead_sids;
 		int def_timeout = v.get<int>("session.timeout"); int def_how = mode_of(v.get<std::string>("session.expire")); size_t climit = (size_t)v.get<int>("session.client_size_limit");
@@ -300,6 +313,8 @@ struct E5 : Engine {
 			cnt["requests"]++;
 			struct Flight { int &n; Flight(int &x) : n(x) { n++; } ~Flight(){ n--; } } flight(in_flight);
 			jar.begin_request();
+			net_resetter.armed = false;   // a reset armed for the previous request that never fired must not add to this request's
+			if(net_server && !conc && q.has("net_reset")){ int64_t nr = q.geti("net_reset"); if(nr <= 0){ if(may_inject_reset() && simk::reset_accepted_stream(simk::fault_rng().next())) cnt["storage_connection_resets"]++; } /* never a second reset while the client has not yet noticed the first: two failures in one operation legitimately make it throw */ else { net_resetter.at = simk::stats().bytes_rx + simk::stats().bytes_tx + (uint64_t)std::min<int64_t>(nr,100000); net_resetter.armed = true; } }
 			std::string presented = jar.get_session_cookie(PREFIX);
 			std::unique_ptr<session_interface> fresh; if(!reuse) fresh.reset(new session_interface(pool,jar)); session_interface &s = reuse ? *shared_s : *fresh; bool loaded = false;
 			try { loaded = reuse ? s.set_cookie_adapter_and_reload(jar) : s.load(); if(reuse) cnt["reloads_of_reused_object"]++; } catch(std::exception const &e){ res.fail("load-threw",where + ": load() threw " + e.what()); break; }
